@@ -103,7 +103,7 @@ def run_case(case):
         exc = exc_code(sc.main_exc) if isinstance(sc.main_exc, Exception) else E["Other"]
     return dict(events=to_events(sc.log_entries, kind), results=results, deadlock=sc.deadlock, step_limit=sc.step_limit,
                 exc=exc, main_done=main.finished and sc.main_exc is None,
-                unfinished=[n for n in sc.unfinished if n != "main"])
+                unfinished=[n for n in sc.unfinished if n != "main"], cand_trace=sc.cand_trace)
 
 
 def to_events(log, kind):
@@ -188,9 +188,12 @@ class P(Prop):
             for pol in POLICIES:
                 for sd in range(2 if tier == "quick" else 20):
                     yield dict(b, seed=sd, policy=pol, flaky=[0.0, 0.5][sd % 2], pipe=[None, 0][(sd // 2) % 2])
+        for b in base[:4]:
+            for k in range(30 if tier == "quick" else 500):
+                yield dict(b, seed=0, policy="np", flaky=0.0, pipe=None, pb1=k)
 
     def impl(self, case):
-        return run_case(case)
+        return S.pb_run(case, run_case)
 
     def to_model(self, case):
         return self.to_model2(case, None)
